@@ -475,3 +475,50 @@ func atomList(m map[string]bool) string {
 	sort.Strings(ks)
 	return "{" + strings.Join(ks, ", ") + "}"
 }
+
+// tableCalls lists the calls, in functions reachable from App.Run, whose callee is a function value read out of a data
+// structure (an element of a slice/array/map or a field of such an element) and may be a module function: the action taken
+// depends on data the entry-condition analysis does not follow.
+func (c *Ctx) tableCalls() []string {
+	if c.tableCallsDone {
+		return c.tableCallSites
+	}
+	c.tableCallsDone = true
+	fromTable := func(v ssa.Value) bool {
+		sl := c.newSlicer()
+		sl.depth = 0
+		for _, x := range sl.run(v).order {
+			switch x.(type) {
+			case *ssa.IndexAddr, *ssa.Index, *ssa.Lookup:
+				return true
+			}
+		}
+		return false
+	}
+	for _, f := range c.ModFuncs {
+		if shortPkg(fnPkgPath(f)) != "cli/app" {
+			continue
+		}
+		for _, site := range callSites(f) {
+			cc := site.Common()
+			if cc.IsInvoke() {
+				continue
+			}
+			switch cc.Value.(type) {
+			case *ssa.Function, *ssa.MakeClosure, *ssa.Builtin:
+				continue
+			}
+			if _, isFunc := cc.Value.Type().Underlying().(*types.Signature); !isFunc || !fromTable(cc.Value) {
+				continue
+			}
+			for _, callee := range c.callees(site) {
+				if inModule(callee) {
+					c.tableCallSites = append(c.tableCallSites, fmt.Sprintf("the call at %s in %s", c.ipos(site), fname(f)))
+					break
+				}
+			}
+		}
+	}
+	sort.Strings(c.tableCallSites)
+	return c.tableCallSites
+}
